@@ -328,6 +328,8 @@ class Checker(CommandMixin):
             if len(subs) < len(msgs) and not died:
                 self.v("C17", "ack-first", ev, "batch of %d commands got %d acks" % (len(msgs), len(subs)))
         failed = [e for e in ev.errors if e.get("kind") == "internal_error" and e.get("conn") == ev.conn]
+        if not failed:
+            self._acknowledged_effects_stored(ev, subs, msgs)
         for i, sub in enumerate(subs):
             if self.stopped:
                 return
@@ -336,6 +338,35 @@ class Checker(CommandMixin):
             if not cm.alive and not err:
                 break
             self.command(cm, sub, err)
+
+    def _acknowledged_effects_stored(self, ev, subs, msgs):
+        """C09: when a non-ack frame goes out, what an independent reader finds
+        stored is already what the command leaves behind (nothing is written
+        after the answer), so a crash right after the frame loses nothing"""
+        base = 0
+        for sub in subs:
+            post_c = sub.post.key()
+            post_u = sub.upost.key() if sub.upost is not None else None
+            pre_c = sub.pre.key()
+            pre_u = sub.upre.key() if sub.upre is not None else None
+            # index of this sub's first frame within the event
+            start = 0
+            if len(subs) > 1:
+                start = ev.mids[sub.k][0] if sub.k < len(ev.mids) else 0
+            for j, (c, f) in enumerate(sub.frames):
+                idx = start + j
+                if idx not in ev.fstates:
+                    continue
+                st = ev.fstates[idx]
+                got_c, got_u = (pre_c, pre_u) if st is None else st
+                # for a batch the "pre" marker refers to the event's pre-state
+                if st is None and len(subs) > 1:
+                    got_c, got_u = ev.pre.key(), (ev.upre.key() if ev.upre is not None else None)
+                if got_c != post_c or (post_u is not None and got_u is not None and got_u != post_u):
+                    self.v("C09", "acknowledged-effects-stored", ev,
+                           "frame %r to conn %s went out before the effects of %r were stored: a second reader "
+                           "saw %s, the command left %s" % (f.get("type"), c, sub.msg.get("type"), got_c, post_c))
+                    return
 
     # ---------------------------------------------------------------- sweeps
     def _on_sweep(self, ev, now, at_start=False):
